@@ -54,13 +54,12 @@ def walls(ctx, R):
             R.check(okd and okc and okg, "C03.WALLS", tag + "|right wall", where(f, w["node"]), "last node variable -> rightWall(maxPos), gap width(last)/2",
                     "right wall: desired=%s, constraint %s -> %s, gap %s; expected LAST -> wall at options['maxPos'] with gap width(LAST)/2 (LAST = last node variable)" % (show(w["desired"]), key(w["left"]), key(w["right"]), show(w["gap"])))
             R.check(key(w["equality"]) in ("False", "None"), "C03.WALLS", tag + "|right wall inequality", where(f, w["node"]), "inequality", "right wall constraint is an equality")
-    # the guards must test `is None`, not truthiness (minPos 0 is a bound)
-    cfg = ctx.cfg(f)
-    for t in cfg.nodes:
-        if t.kind == "test" and ("minPos" in ntext(t.ast) or "maxPos" in ntext(t.ast)):
-            tx = ntext(t.ast)
-            uses_none = "None" in tx
-            R.check(uses_none, "C03.WALLS", "guard `%s`" % tx[:60], where(f, t.ast), "bound presence is tested with `is None`", "bound presence tested by truthiness `%s`: a bound of 0 would be ignored" % tx[:80])
+    # a bound of 0 is a bound: with both bounds present and falsy the walls are still there (guards test `is None`, not truthiness)
+    Z = qp.zero_model(ctx)
+    for side, nm in (("left", "minPos"), ("right", "maxPos")):
+        ws = [w for w in Z.walls if w["wall_side"] == side]
+        R.check(len(ws) == 1, "C03.WALLS", "%s = 0|%s wall" % (nm, side), where(f, ws[0]["node"]) if ws else where(f), "a bound of 0 still gets its wall",
+                "with %s = 0 there are %d %s walls (expected 1): the bound's presence is decided by its truthiness, a bound of 0 is ignored" % (nm, len(ws), side))
 
 
 @rule("C03.EARLY")
@@ -128,6 +127,12 @@ def layerwidth(ctx, R):
                 want_ok = n is not None and n.equals(A("x:maxPos") - A("x:minPos"))
                 want = "maxPos - minPos"
             R.check(want_ok, "C03.LAYERWIDTH", tag + "|layerWidth", where(f), "distributor layerWidth = %s" % want, "with %s the distributor's layerWidth becomes %s, expected %s" % (tag, show(lw) if lw is not None else "unset", want))
+    # bounds not supplied in this call: the layer width still follows the engine's current bounds
+    ev, st, cur, dopts, fd, dd, f = _set_options_eval(ctx, False, False, x_items={"density": Opaque("x:density")})
+    lw = dopts.items.get("layerWidth")
+    n = as_num(lw) if lw is not None else None
+    R.check(n is not None and n.equals(A("cur:maxPos") - A("cur:minPos")), "C03.LAYERWIDTH", "bounds kept from an earlier call|layerWidth", where(f), "layerWidth = the engine's current maxPos - minPos",
+            "after set_options({'density': ..}) on an engine that already has both bounds the distributor's layerWidth becomes %s, expected the engine's current maxPos - minPos: re-configuring another option forgets the bounds" % (show(lw) if lw is not None else "unset"))
     # options not supplied keep the engine's current value (and still reach the distributor): see C04.OPTFLOW
 
 
